@@ -25,5 +25,8 @@ func (pass *ReplaceReference) processRef(_ *Visitor, _ *ast.Schema, def ast.Type
 		return def, nil
 	}
 
-	return ast.NewRef(pass.To.Package, pass.To.Object, ast.Trail(fmt.Sprintf("ReplaceReference[%s → %s]", def.Ref, pass.To))), nil
+	def.AddToPassesTrail(fmt.Sprintf("ReplaceReference[%s → %s]", def.Ref, pass.To))
+	def.Ref = &ast.RefType{ReferredPkg: pass.To.Package, ReferredType: pass.To.Object}
+
+	return def, nil
 }
